@@ -4,14 +4,65 @@ import json, subprocess, os
 HOOK_COMMITS = subprocess.run(["git","-C","/repo","log","--format=%H %s"],capture_output=True,text=True).stdout.strip().split("\n")
 hook_commits = [l.split()[0] for l in HOOK_COMMITS if " verif hooks:" in l]
 BASE = "stateless model checking of the real code (shuttle execution engine + own preemption-bounded exhaustive DFS scheduler)"
+SEQ = "explicit-state model checking of the real code: breadth-first search over operation sequences with canonical-state deduplication (fresh cache per transition, quiescence after every step)"
+EXH = "exhaustive input enumeration of the real component against a reference model"
+ILV_NOTE = "shim fidelity (parking_lot / dashmap 5.4 / crossbeam-channel look-alikes on shuttle's engine), sequentially consistent executions, 1-3 client threads with 1-4 operations each on 2-3 colliding keys, preemption bound as completed in the evidence"
+SEQ_NOTE = "alphabet and depth as listed in the evidence; canonical state keeps everything future behaviour depends on (DESIGN 3.4); default schedule with quiescence after every step"
 CHECKS = {
- # id: (engine, technique, level text, note, design_ref)
+ "C01": ("seq+ilv", SEQ + " + " + BASE + " with an every-scheduling-point monitor",
+         "Invariant 0 <= total <= W on every quiescent state reachable with <= d operations (W in {2,3,4}, every write variant, weight-changing upserts, deletes, clock steps, sweeps), and on every scheduling point of 2-3 client programs racing the worker and the sweeper (monitor peeks weight_used whenever it is not write-locked). Blame is inductive: the step that takes the total out of range.",
+         ILV_NOTE + "; " + SEQ_NOTE, "DESIGN.md §5/C01"),
+ "C02": ("ilv+seq", BASE + " with a per-read history oracle over effect intervals; " + SEQ + " for read-variant agreement",
+         "Every schedule (up to the bound) of readers racing upserts, delete+re-put, evicting puts and expiry on overlapping keys, through each read variant, identity and constant key hashes; every read that returns a value is checked against the effect intervals of the writes (register-with-delete). In every quiescent state of a BFS all seven read variants agree with the stored entry.",
+         ILV_NOTE, "DESIGN.md §5/C02"),
+ "C03": ("seq+ilv", SEQ + " + " + BASE,
+         "Ghost state (latest accepted value and deadline per key) versus the state snapshot after every transition of a BFS with traffic on other keys, sketch ageing and sweeps; and per-key-sequential client threads racing other clients, readers and the clock/sweeper under every schedule up to the bound.",
+         ILV_NOTE + "; " + SEQ_NOTE + "; total demanded weight always fits", "DESIGN.md §5/C03"),
+ "C04": ("ilv+seq", BASE + " with a history oracle on step stamps; " + SEQ,
+         "Deleter, readers, worker and sweeper under every schedule up to the bound: no read invoked after delete(k) returned sees the deleted value, the acknowledged delete leaves no entry/charge, the key can be put again; BFS over delete in every life-cycle state (absent keys: rejected, state unchanged).",
+         ILV_NOTE + "; " + SEQ_NOTE, "DESIGN.md §5/C04"),
  "C05": ("ilv", BASE + "; invariant Q on state snapshots at quiescence",
          "Every schedule (up to the completed preemption bound) of 10 client programs racing writes to one key against the real worker and sweeper; at the quiescent end of each execution the charged key ids and the stored entries must be in bijection and weight_used must be their sum. Exhaustive within the bound, not sampled.",
-         "shim fidelity (parking_lot/dashmap/crossbeam look-alikes), sequential consistency, 2 client threads, <=3 keys, preemption bound as reported in the evidence", "DESIGN.md §5/C05"),
+         ILV_NOTE, "DESIGN.md §5/C05"),
+ "C06": ("exh", EXH + " (admission decision table on the real AdmissionPolicy, oracle per eviction round from events, estimates read back)",
+         "All enumerated (resident sequence, weights, access profile, incoming key) cases for W in 3..8: fast path, too-heavy rejection, and for every eviction round: sample size/distinctness/membership, victim is a coldest sample member, never hotter than the incoming key when evicted, eviction stops when space suffices, accepted iff enough space, totals.",
+         "estimates are inputs (read back), ties may go either way; table bounds as listed in the evidence", "DESIGN.md §5/C06"),
+ "C07": ("seq", SEQ,
+         "Key 1 is driven into every life-cycle state the sequential API reaches (never written, live, live+TTL, deleted, evicted, swept, expired-unswept); each of the four put variants is applied in each state and compared with the state snapshot before/after; the same BFS binds the readability model to all seven read variants.",
+         SEQ_NOTE, "DESIGN.md §5/C07"),
+ "C08": ("seq+ilv", SEQ + " with a before/after entry oracle and a differential twin-cache oracle; " + BASE + " with the worker frozen",
+         "The 11 request shapes x key states {absent, live, live+TTL, expired-unswept} x one preceding operation; readable keys: exactly the requested fields change; absent keys: behaves like the corresponding put (specification and twin cache); visibility at return and the soft-deleted state under the scheduler.",
+         SEQ_NOTE + "; " + ILV_NOTE, "DESIGN.md §5/C08"),
+ "C09": ("seq", SEQ,
+         "Expected read derived from the specification-level ghost (latest accepted value/deadline) for every read variant in every state of a BFS over TTL puts, TTL upserts (add/change/remove), deletes, clock steps including a huge jump, sweeps present or withheld, 2 and 4 shards.",
+         SEQ_NOTE + "; monotone clock; the instant now == expiry is unspecified", "DESIGN.md §5/C09"),
+ "C10": ("seq+ilv", SEQ + " with an exact removed-set oracle on every tick transition; " + BASE,
+         "On every sweep transition of a BFS the removed set must equal the held keys whose current expiry lies in the swept shard and has passed, their weight and bookkeeping released, everything else untouched; sweeps racing worker commands, TTL upserts, delete+re-put and evictions under every schedule up to the bound.",
+         SEQ_NOTE + "; " + ILV_NOTE + "; sweeps are manual ticks at chosen instants", "DESIGN.md §5/C10"),
+ "C11": ("ilv", BASE + " with an every-scheduling-point monitor for acknowledgement order and an event-log oracle",
+         "Bursts of 2-4 unawaited writes from 1-3 threads, queue sizes 1 and 2: each queued command dequeued exactly once, one at a time, in real-time submission order; acknowledgements complete in order at every scheduling point; statuses and final state equal the sequential application in dequeue order.",
+         ILV_NOTE, "DESIGN.md §5/C11"),
  "C12": ("ilv", BASE + "; unbounded DFS for the acknowledgement micro-harness",
          "All interleavings (no bound) of done(status) with 1-2 polling tasks x 1-3 polls at the granularity of the flag / status mutex / waker mutex accesses of the real CommandAcknowledgement, plus bounded exploration of whole-cache programs that await their own writes (a lost wake-up is a deadlock there).",
          "sequentially consistent atomics (argued sufficient in DESIGN §5/C12), shim Mutex = parking_lot::Mutex semantics", "DESIGN.md §5/C12"),
+ "C13": ("ilv", BASE + "; lifecycle flags are scheduling points",
+         "shutdown() racing writers, readers and other shutdown calls with a command queue of size 1-2: calls invoked after a shutdown returned are refused, every acknowledgement completes with its real outcome or ShuttingDown consistently with the worker's dequeue log, shutdown itself returns (otherwise deadlock).",
+         ILV_NOTE, "DESIGN.md §5/C13"),
+ "C14": ("exh", EXH + " (packed 4-bit rows, FrequencyCounter, TinyLFU against exact counters)",
+         "All 256 byte values x neighbours x positions for the packed rows; every access stream over 3 hashes up to length 6-8 for each listed counter count (1..17, non-powers of two) and enumerated seed low bits against an exact count-min reference; TinyLFU across ageing windows against a reference fed with the door-keeper's answers.",
+         "three hash values, listed counter counts, stream lengths as in the evidence", "DESIGN.md §5/C14"),
+ "C15": ("ilv+seq", BASE + " (consumer optionally frozen, buffer index as data choice) with a conservation oracle; " + SEQ,
+         "2 readers x 2-4 reads, pool size 1-2, buffer size 1-2, access channel shrunk to 1-2, consumer running, slow or never scheduled: hits = buffered + delivered + dropped at the end of every execution, delivered = applied, no reader ever waits for the consumer; BFS over read sequences.",
+         ILV_NOTE + "; the channel capacity constant (10) is shrunk by the shim so that saturation is reachable", "DESIGN.md §5/C15"),
+ "C16": ("seq", SEQ + "; counter identities in delta form on every transition",
+         "Per transition: hits+misses = lookups, hits = successful lookups, keys added-deleted = change of held keys, weight added-removed = change of total weight, rejected = admission refusals; per state the hit-ratio formula; with and without memory pressure, all-hit and all-miss workloads.",
+         SEQ_NOTE, "DESIGN.md §5/C16"),
+ "C17": ("seq", SEQ + " over a boundary-value alphabet; caller panics caught per call, background panics / dead workers fail the execution",
+         "Weights {1,24,25,W,W+1,i64::MAX} x TTL {0,1ns,1s,u64::MAX s,Duration::MAX} x counters 1..3 x W in {1,30,i64::MAX} with queue/pool/buffer size 1, all put variants and upsert shapes, depth 2-3; overflow checks on.",
+         SEQ_NOTE + "; exhaustive over the listed boundary values, not over i64/Duration", "DESIGN.md §5/C17"),
+ "C18": ("ilv", BASE + " with built-in deadlock detection, two rwlock fairness models, liveness probes",
+         "Six maximal-lock-sharing programs (one shard, queue 1, pool 1, buffer 1; upserts with TTL change, evictions, sweeps, hand-overs, shutdown, iterators) under the reader-preferring and parking_lot's writer-preferring rwlock rule; a deadlock is a state with an unfinished task and none enabled; afterwards worker, sweeper and consumer must answer a probe. Every other property's scenarios detect deadlocks too.",
+         ILV_NOTE + "; callers never hold a get_ref guard across another call", "DESIGN.md §5/C18"),
 }
 NOT_YET = {
 }
